@@ -14,7 +14,7 @@ try:
         print("APPLY FAILED", r.stdout); sys.exit(2)
     for p in props:
         rr = subprocess.run([os.path.join(V, "check"), p], env=dict(os.environ, VERIF_REPO=WT), stdout=subprocess.PIPE, stderr=subprocess.STDOUT, text=True)
-        rules = sorted(set(re.findall(r"rule=(\S+) construct=(\S+)", rr.stdout)))
+        rules = sorted(set(re.findall(r"^  rule=(\S+) construct=(\S+)", rr.stdout, re.M)))
         print(p, "exit", rr.returncode, rules if rr.returncode else "")
         if rr.returncode == 2: print(rr.stdout[-800:])
 finally:
